@@ -3,7 +3,7 @@ terminates (the per-case watchdog of core.impl_eval turns a hang into a failing 
 state untouched."""
 import io
 import traceback
-from impl import op, unhx, REPO
+from impl import op, unhx, REPO, CStream
 import impl_bf3 as b3
 import impl_bec2 as b2
 from bec2format import crypto
@@ -76,14 +76,14 @@ def classify(f):
 @op("prop.c14bf3")
 def c14_bf3(chk, k, t):
     text = b3.parse_str(t)
-    return classify(lambda: Bf3File.read_file(io.StringIO(text), chk == "1", unhx(k)))
+    return classify(lambda: Bf3File.read_file(CStream(text), chk == "1", unhx(k)))
 
 
 @op("prop.c14bec2")
 def c14_bec2(chk, es, t):
     text = b3.parse_str(t)
     decs = b2.parse_encs(es)
-    return classify(lambda: Bec2File.read_file(io.StringIO(text), decs, chk == "1"))
+    return classify(lambda: Bec2File.read_file(CStream(text), decs, chk == "1"))
 
 
 @op("prop.c14bf2")
